@@ -628,6 +628,50 @@ def gen_cases(tier, rng):
             ms.append(audio_msg(rng, acodec, 23 * i, 40))
             ms.append(video_msg("avc", i % 3 == 0, 40 * i, 0, [nal_token(rng, bytes([0x65 if i % 3 == 0 else 0x41]), 20)[0]]))
         yield Case(e2e_line(1000, 0, 1, ms, {0: ["Jr:1"], 5: ["Jr:2"]}, wk=0, tsgop=0), cls="e2e-meta")
+    # a track that JOINS LATE and whose first message already yields TS output: Opus (no sequence header) after 16, 17, 40
+    # video-only messages - the PMT that announces the track must be in front of its first packet (a demultiplexer drops
+    # packets of a PID no PMT lists yet); also with the scripted FlushAudio observer and through logic.Group
+    for k in (16, 17, 40):
+        for vc in ("avc", "hevc"):
+            for mode in (("classic",) if vc == "avc" else ("classic", "ex1")):
+                if vc == "avc":
+                    ms = [Msg(9, 0, hex_tok(avc_seq_header([AVC_SETS[0][0]], [AVC_SETS[0][1]])))]
+                    key_h, non_h = bytes([0x65]), bytes([0x41])
+                else:
+                    ms = [Msg(9, 0, hex_tok(hevc_seq_header(*HEVC_SETS[0], enhanced=mode != "classic")))]
+                    key_h, non_h = bytes([0x26, 0x01]), bytes([0x02, 0x01])
+                for i in range(k - 1):
+                    ms.append(video_msg(vc, i % 5 == 0, 40 * i, 0, [nal_token(rng, key_h if i % 5 == 0 else non_h, 8)[0]], mode))
+                t = 40 * (k - 1)
+                for i in range(4):
+                    ms.append(audio_msg(rng, "opus", t + 20 * i, 30))
+                    ms.append(video_msg(vc, i == 2, t + 40 * i + 5, 0, [nal_token(rng, key_h if i == 2 else non_h, 8)[0]], mode))
+                for script in ("", "1"):
+                    yield Case(ts_line(script, ms), cls="ts-late-join")
+                if k != 40:
+                    yield Case(e2e_line(400, 1, 0, ms, {0: ["Jt:1"], k + 3: ["Jt:2"]}, wk=0, tsgop=rng.choice([0, 1])), cls="e2e-late-join")
+    # ... and late VIDEO after audio-only, the first late message being a FRAME (an inter frame passes although no parameter
+    # sets are cached yet), then the sequence header and a key frame: AVC, HEVC classic and enhanced-RTMP form
+    for k in (16, 17, 40):
+        for ac in ("aac", "opus"):
+            for vc, mode in (("avc", "classic"), ("hevc", "classic"), ("hevc", "ex1")):
+                ms = list(audio_msgs_header(ac, 4, 2))
+                for i in range(k - len(ms)):
+                    ms.append(audio_msg(rng, ac, 23 * i, 20))
+                t = 23 * k
+                if vc == "avc":
+                    vsh = Msg(9, t + 40, hex_tok(avc_seq_header([AVC_SETS[0][0]], [AVC_SETS[0][1]])))
+                    key_h, non_h = bytes([0x65]), bytes([0x41])
+                else:
+                    vsh = Msg(9, t + 40, hex_tok(hevc_seq_header(*HEVC_SETS[0], enhanced=mode != "classic")))
+                    key_h, non_h = bytes([0x26, 0x01]), bytes([0x02, 0x01])
+                ms.append(video_msg(vc, False, t, 0, [nal_token(rng, non_h, 8)[0]], mode))
+                ms.append(audio_msg(rng, ac, t + 10, 20))
+                ms.append(vsh)
+                ms.append(video_msg(vc, True, t + 40, 0, [nal_token(rng, key_h, 8)[0]], mode))
+                ms.append(audio_msg(rng, ac, t + 50, 20))
+                ms.append(video_msg(vc, False, t + 80, 0, [nal_token(rng, non_h, 8)[0]], mode))
+                yield Case(ts_line("", ms), cls="ts-late-join-video")
     # late sequence headers (after the probe / analysis windows): known limitation classes
     for k in (17, 20):
         ms = gen_stream(rng, "avc", "aac", 6, k + 8, dict(vsh_at=k + 2, video_start=23 * (k + 2), sizes=[9], audio_sizes=[8], sfi=4))
